@@ -12,6 +12,18 @@ CLAIMED = {
         text="Every method of HistContainer that the property depends on (_fill_unprocessed with its merge-loop invariant, data/underflow/overflow/raw_data getters, fill, rebin, set_bins) is verified function by function against contracts stated over the half-open-bin specification taken from the property text (binof/cnt spec functions), for all edge sequences, entries, batch sizes and iteration counts; three counting lemmas are proved by z3 induction pairs. Proof level is right because the property quantifies over unbounded inputs and histories and the code is a comparison-only loop over arrays, which the VC generator covers completely.",
         note="Trusted: np.sort is a sorted permutation (count-preserving); elementwise numpy models (zeros/asarray/insert/append/diff); floats as reals, entries finite (no NaN); closed world (no subclass overrides); z3/cvc5 soundness; induction principle applied outside the solver (base+step discharged). Bounded only (not counted as proved): HistContainer.__init__ argument normalisation and n_entries' sum lemma are exercised by the native small-scope enumeration.",
         ref="3 C12"),
+    "C16": dict(
+        text="Every method of ConfidenceLevel (constructor case analysis, the cl/sigma/delta_nll/ndim setters with their raise paths, the lazy getters and both conversion helpers) is verified against contracts over the axiomatised regularised incomplete gamma functions: sigma->CL is the chi2 cdf F_n(sigma^2), CL->sigma its exact inverse, both strictly increasing, delta_nll = sigma^2, and a class invariant (cl and sigma caches are never both empty and always correspond) covers every order of setter calls and reads. MinimizerIMinuit.contour is proved to hand MINUIT the two-dimensional level 1-exp(-sigma^2/2) = F_2(sigma^2). Proof over the reals is the right level: the property is an algebraic identity for all n, sigma, cl.",
+        note="Trusted: scipy.special gammaincc/gammainccinv axioms (mutual inverses, ranges, strict monotonicity, Q(1,x)=exp(-x)), np.sqrt axioms, floats as reals (IEEE cancellation near 8 sigma is outside the technique and stated), iminuit.mncontour(cl=) semantics. One open known finding: the ndim setter does not re-establish the invariant (KF-C16-1), so that run reports discharged = obligations - 1 and level 'other'. Bounded only: MinimizerBase._get_arrow_specs (profile arrows) and the 68.27/95.45/99.73 % table are checked by the native run.",
+        ref="3 C16"),
+    "C13": dict(
+        text="The three quadrature rules, the antiderivative and numerical evaluations, _recalculate and the lazy data getter of HistParametricModel (for each of the five methods), the parameters setter, eval_model_function_density (scalar broadcast) and HistFit.model (N-scaling with the data container's total number of entries) are verified against per-bin specifications with an uninterpreted density at the current parameter vector; exactness of midpoint/trapezoid/Simpson on polynomial densities of degree 1/1/3 and inexactness one degree higher are z3 NRA lemmas with symbolic coefficients, which pins nodes and weights independently of the code.",
+        note="Trusted: scipy.integrate.quad returns the integral of the function it is given (the proof checks that this function is the density at the current parameters); user densities are pure and vectorised calls are elementwise; a supplied antiderivative is the user's obligation; textbook convergence orders follow from the exactness degrees (cited); numpy slicing/broadcast models; floats as reals. Bounded only: the string -> method table of __init__ and end-to-end HistFit wiring (native run).",
+        ref="3 C13"),
+    "C10": dict(
+        text="FitBase.ndf and MultiFit.ndf (nested loops over the multi-fit's own and every member's constraints) are verified against the documented formula N_d + sum extra_ndf - N_p + N_fixed, with extra_ndf of both constraint classes proved against 1 resp. n; CostFunction.goodness_of_fit is verified for every built-in argument configuration against cost(determinant zeroed) - handle(model:=data), CostFunction_GaussApproximation.goodness_of_fit against the flag save/restore protocol, FitBase.goodness_of_fit against the choice of pointwise/covariance variant with node values in argument order, chi2_probability of cost wrapper, fit and multi-fit against 1 - chi2cdf(cost - log-determinant terms, ndf) with each log-determinant subtracted exactly once.",
+        note="Trusted: chi2.cdf (uninterpreted), cost handle is a pure function, node values are what Nexus.get(name).value returns (C04), dict length = number of fixed parameters (fix/release bookkeeping is dict semantics, exercised natively), equality of covariance and pointwise chi2 on diagonal matrices (stated linear-algebra fact), floats as reals. Bounded only: end-to-end formulas on real fits and multi-fits (native run).",
+        ref="3 C10"),
 }
 
 NOT_APPLICABLE = {
